@@ -26,9 +26,8 @@ theorem uvarint_roundtrip (n : Nat) (hn : n < 2 ^ 64) (cs : Chunks) (rest : List
 
 /-- `WriteMessage` puts exactly the frame on the wire (its 5-byte varint buffer is enough) for every payload
 shorter than 2^35 bytes. -/
-theorem writeMessage_is_frame (data : List Nat) (h : data.length < 2 ^ 35) : writeMessage data = some (frame data) := by
-  have : (putUvarint data.length).length ≤ 5 := putUvarint_length_le 4 data.length (by simpa using h)
-  simp [writeMessage, frame, this]
+theorem writeMessage_is_frame (data : List Nat) (h : data.length < 2 ^ 35) : writeMessage data = some (frame data) :=
+  writeMessage_frame_of_lt data h
 
 /-- **Framing is independent of fragmentation**: for every list of payloads and EVERY split of the byte stream
 that `WriteMessage` produced for them into reads (including empty reads, one-byte reads, splits inside the varint,
@@ -86,7 +85,11 @@ restore, info, init) interleaved ANYWHERE into the request stream; a peer that e
 answers every management request; ANY interleaving of its echoed responses with its management responses.
 Then `handleResponse` never dereferences nil, ends with no batch open, and hands out data messages that are
 exactly the inputs: as many, in order, each the same in name, database, retention policy, group, dimensions,
-tags, fields (names, values, types), time; batches with their boundaries and their points in order. -/
+tags, fields (names, values, types), time; batches with their boundaries and their points in order.
+(Lean's `String` ranges over valid Unicode: inputs carrying byte strings that are not valid UTF-8 are outside this
+theorem — on the implementation they are the recorded deviation `invalid-utf8`, see findings/C19.txt and the
+driver's `judgeDeviation`. `Item.WF` is what the edge constructors guarantee: derived group ID, batch
+dimensions = sorted tag keys, distinct field keys.) -/
 theorem echo_identity (items : List Item) (hwf : ∀ it ∈ items, it.WF)
     (ctl : List Request) (hctl : ∀ r ∈ ctl, r.isData = false)
     (reqs : List Request) (hreqs : Interleave (items.flatMap Item.reqs) ctl reqs)
@@ -135,6 +138,42 @@ theorem snapshot_restore_bytes (items : List Item)
   · rw [filterMap_snapOf_ctlOuts, h3, (agentRun_direct_interleave hreqs hdata h).1, hsn.1]
   · rw [(agentRun_direct_interleave hreqs hdata h).2, hsn.2.1]
 
+/-! ### Both halves together -/
+
+/-- **The whole boundary**: bytes out, any fragmentation, the peer, bytes back, any fragmentation, reassembly.
+For any request codec and response codec that decode what they encode: the peer decodes exactly the request stream
+the server wrote, the server decodes exactly the response stream the peer wrote, both streams end cleanly, and
+what `handleResponse` hands out is the input (conclusions of `echo_identity`). -/
+theorem boundary_end_to_end
+    (encQ : Request → List Nat) (decQ : List Nat → Option Request) (hQ : ∀ m, decQ (encQ m) = some m)
+    (encR : Response → List Nat) (decR : List Nat → Option Response) (hR : ∀ m, decR (encR m) = some m)
+    (items : List Item) (hwf : ∀ it ∈ items, it.WF)
+    (ctl : List Request) (hctl : ∀ r ∈ ctl, r.isData = false)
+    (reqs : List Request) (hreqs : Interleave (items.flatMap Item.reqs) ctl reqs)
+    (hlenQ : ∀ m ∈ reqs, (encQ m).length < 2 ^ 64)
+    (cs₁ : Chunks) (hcs₁ : cs₁.flatten = (reqs.map (fun m => frame (encQ m))).flatten) (ewd₁ : Bool)
+    (h : Peer) (resps : List Response)
+    (hresps : Interleave (agentRun h reqs).2.2 (agentRun h reqs).2.1 resps)
+    (hlenR : ∀ m ∈ resps, (encR m).length < 2 ^ 64)
+    (cs₂ : Chunks) (hcs₂ : cs₂.flatten = (resps.map (fun m => frame (encR m))).flatten) (ewd₂ : Bool) :
+    ((readAll ewd₁ cs₁).1.map decQ = reqs.map some ∧ (readAll ewd₁ cs₁).2 = RdErr.eof) ∧
+    ((readAll ewd₂ cs₂).1.map decR = resps.map some ∧ (readAll ewd₂ cs₂).2 = RdErr.eof) ∧
+    ∃ outs, handleAll {} resps = some ({}, outs) ∧
+      echoIdentity (items.map Item.data) ((dataOuts outs).filterMap edgeData) = true ∧
+      ctlOuts outs = (agentRun h ctl).2.1.flatMap ctlOutOf :=
+  ⟨messages_read_back encQ decQ hQ reqs hlenQ cs₁ hcs₁ ewd₁, messages_read_back encR decR hR resps hlenR cs₂ hcs₂ ewd₂,
+   echo_identity items hwf ctl hctl reqs hreqs h resps hresps⟩
+
+/-- STATED, NOT PROVED (checked on the implementation by the spec clause `framing-truncated` and by
+correspondence): a stream that ends early yields exactly the whole frames it contains — never a phantom or altered
+message — and the early end is an error unless it falls on a frame boundary. -/
+def framing_truncation_safe_stmt : Prop :=
+  ∀ (ps : List (List Nat)) (cs : Chunks) (ewd : Bool), (∀ p ∈ ps, p.length < 2 ^ 64) →
+    cs.flatten <+: (ps.map frame).flatten →
+    let k := (wholeFrames (ps.map (fun p => (frame p).length)) cs.flatten.length).1
+    let onBoundary := (wholeFrames (ps.map (fun p => (frame p).length)) cs.flatten.length).2
+    (readAll ewd cs).1 = ps.take k ∧ ((readAll ewd cs).2 = RdErr.eof ↔ onBoundary = true)
+
 /-! ### Non-vacuity: the hypotheses are met by concrete, non-trivial instances -/
 
 /-- 300 needs a two-byte varint; its bytes split one per read, a stray empty read, the rest in one chunk. -/
@@ -150,11 +189,8 @@ def exBP1 : BP := ⟨[("v", .int (-1))], [("dc", "x")], 4⟩
 def exBP2 : BP := ⟨[], [], 5⟩
 def exBatch : Item := .batch false exB [exBP1, exBP2]
 
-theorem ex_wf : (Item.pt exPoint).WF ∧ exBatch.WF := by
-  refine ⟨⟨by decide, rfl⟩, ⟨rfl, rfl⟩, ?_⟩
-  intro bp hbp
-  simp at hbp
-  rcases hbp with rfl | rfl <;> simp [BP.WF, keys, exBP1, exBP2]
+theorem nonvacuity_inputs_wf : (Item.pt exPoint).WF ∧ exBatch.WF :=
+  ⟨⟨by decide, rfl⟩, ⟨rfl, rfl⟩, by decide⟩
 
 /-- `echo_identity` instantiated: a point with all four field types (NaN payload, an int beyond 2^53, a string with
 a newline) followed by an unbuffered batch (begin, two points, end); a snapshot request is written between the
@@ -166,7 +202,7 @@ example : ∃ outs, handleAll {} (echoOf (writePoint exPoint) ++ echoOf (writeBe
         echoOf (writeEnd exB)) = some ({}, outs) ∧
     echoIdentity [Item.data (.pt exPoint), exBatch.data] ((dataOuts outs).filterMap edgeData) = true ∧
     ctlOuts outs = [.snapshot [9, 9]] :=
-  echo_identity [.pt exPoint, exBatch] (by intro it hit; simp at hit; rcases hit with rfl | rfl; exact ex_wf.1; exact ex_wf.2)
+  echo_identity [.pt exPoint, exBatch] (by intro it hit; simp at hit; rcases hit with rfl | rfl; exact nonvacuity_inputs_wf.1; exact nonvacuity_inputs_wf.2)
     [.snapshot, .keepalive 7] (by decide)
     _ (.left (.left (.right (.left (.left (.left (.right .nil)))))))
     { snap := [9, 9] } _
